@@ -33,6 +33,7 @@ import (
 	"github.com/dadrus/heimdall/internal/heimdall"
 	"github.com/dadrus/heimdall/internal/rules/mechanisms/contenttype"
 	"github.com/dadrus/heimdall/internal/x"
+	"github.com/dadrus/heimdall/internal/x/stringx"
 )
 
 type RequestContext struct {
@@ -136,6 +137,12 @@ func (r *RequestContext) Cookie(name string) string {
 
 func (r *RequestContext) Body() any {
 	if r.savedBody == nil {
+		// envoy sends the buffered body either in the body attribute, or, if configured
+		// to pack it as bytes, in the raw_body attribute
+		if len(r.reqRawBody) == 0 && len(r.reqBody) != 0 {
+			r.reqRawBody = stringx.ToBytes(r.reqBody)
+		}
+
 		decoder, err := contenttype.NewDecoder(r.Header("Content-Type"))
 		if err != nil {
 			r.savedBody = string(r.reqRawBody)
